@@ -12,6 +12,9 @@ from mmverif.engine.values import EngineError
 
 SIDECARS = {
     'heapdict': 'mmverif.contracts.heapdict_spec',
+    'geoeligibility': 'mmverif.contracts.geoeligibility_spec',
+    'tbrmmdata': 'mmverif.contracts.tbrmmdata_spec',
+    'tbrmatchedmarkets': 'mmverif.contracts.tbrmatchedmarkets_spec',
 }
 
 
